@@ -1010,11 +1010,21 @@ _big_range = re.compile(r"(\d{4,})")
 
 
 def tame_generate(text):
-    """keep $GENERATE ranges small: a range of 10^9 steps terminates, but not within the watchdog"""
+    """keep $GENERATE ranges small: a range of 10^9 steps terminates, but not within the watchdog.
+    Only the range token is tamed - numbers inside ${offset,width,base} modifiers are left as they are
+    (an unbounded width was the hang repaired by /repo f43464b)"""
     out = []
     for ln in text.split("\n"):
         if re.match(r"\s*\"?\$?\s*gen", ln, re.I) or "$G" in ln.upper():
-            ln = _big_range.sub(lambda m: m.group(1)[:3], ln)
+            parts = re.split(r"(\s+)", ln)
+            seen = 0
+            for i, tk in enumerate(parts):
+                if tk.strip():
+                    seen += 1
+                    if seen == 2:
+                        parts[i] = _big_range.sub(lambda m: m.group(1)[:3], tk)
+                        break
+            ln = "".join(parts)
         out.append(ln)
     return "\n".join(out)
 
@@ -1242,6 +1252,16 @@ def sweep_probes(s, what):
                     yield "zone_text", [zhead + t2 + "\n", 1, 1, 0]
                     yield "zone_text", [t2 + "\nx A 10.0.0.1\n", 0, 0, 0]
                     yield "read_rrsets", [t2, 4, 1, 0]
+        # $GENERATE modifiers ${offset,width,base}: boundary offsets and widths on both sides (labels of
+        # 63 / 64, strings of 255 / 256, the width bound 131070 / 131071, 10^8, more digits than int() takes)
+        mods = ["0", "1", "62", "63", "64", "254", "255", "256", "65535", "65536", "131070", "131071", "100000000", "4294967296", "1" * 4300, "1" * 4301]
+        for wv in mods:
+            for base in ("d", "x", "n", "N", "o", "X", "z"):
+                yield "zone_text", [zhead + "$GENERATE 1-2 x${0," + wv + "," + base + "} A 10.0.0.1\n", 1, 1, 0]
+                yield "zone_text", [zhead + "$GENERATE 1-2 x$ TXT ${0," + wv + "," + base + "}\n", 1, 1, 0]
+            for ov in ("0," + wv, wv, "-" + wv, "+" + wv + ",2", wv + ",0,x"):
+                yield "zone_text", [zhead + "$GENERATE 1-2 x${" + ov + "} A 10.0.0.1\n", 1, 1, 0]
+                yield "read_rrsets", ["$GENERATE 1-2 x$ 300 IN TXT ${" + ov + "}", 4, 1, 0]
         # every line of tests/example*: each of its first six tokens replaced
         for line in s.zone_lines:
             toks = _tok_re.findall(line)
